@@ -91,6 +91,32 @@ def respell(smi, rng, n):
     return out
 
 
+def colon_spelling(smi, rng, n):
+    """The same aromatic molecule written with upper-case atoms and explicit ':' bonds (C1:C:C:C:C:C:1), in n random
+    atom orders; unbracketed aromatic atoms only (bracket atoms keep their spelling)."""
+    import re
+    try:
+        from rdkit import Chem, RDLogger
+        RDLogger.DisableLog("rdApp.*")
+    except Exception:
+        return []
+    mol = Chem.MolFromSmiles(smi)
+    if mol is None or not any(a.GetIsAromatic() for a in mol.GetAtoms()):
+        return []
+    out = []
+    nat = mol.GetNumAtoms()
+    for _ in range(n):
+        try:
+            s = Chem.MolToSmiles(mol, canonical=False, doRandom=True, allBondsExplicit=True, rootedAtAtom=rng.randrange(nat))
+        except Exception:
+            continue
+        if "[" in s and re.search(r"\[[^\]]*[a-z]{1}[^\]]*\]", s) and re.search(r"\[(\d*)(c|n|o|s|p|se|b|te|as)[^a-z]", s):
+            continue        # aromatic bracket atoms: their hydrogen bookkeeping differs between the two notations
+        t = re.sub(r"(?<![A-Z\[@])(c|n|o|s|p)(?![a-z])", lambda m_: m_.group(1).upper(), s)
+        out.append(t)
+    return out
+
+
 def corpus(rng, per_file, variants, include_builtin=True, files=None):
     """(source, smiles) pairs: dataset molecules and built-in ones, each with re-spellings."""
     import random as _r
